@@ -576,6 +576,7 @@ def _no_field_assignment_on_references(col, rule="C20.R4"):
                 fields |= {t.id for t in n.targets if isinstance(t, ast.Name)}
     if not {"_manager", "_owner", "_key", "_hash"} <= fields:
         raise AnalysisError(f"refs: declared fields of the reference classes not recognised ({sorted(fields)}) -- cannot decide")
+    fields = {"_manager", "_owner", "_key", "_hash"}     # those of the assignable references (MutableRef and its bases)
     n = 0
     for m, c, fn in repo.all_functions():
         n += 1
